@@ -35,10 +35,12 @@ LEVEL_TEXT = (
     "grow and the dynamic-SGE mapping stay inside that language, full creation through the limit its initializer "
     "configures produces exactly the programs all of whose branches end at the limit (grammars where every "
     "abstract type is recursive). (R7) no invalid program through a refined list: its elements are created as "
-    "values of the declared element type (the C02.R7 model). Where the affine engine cannot follow the full "
-    "decider's filter (R3), the offset is read from the finite-model interpretation of the chooser on scripted "
-    "distances. Grammars with lists are outside the model (known finding R1); beyond the listed grammars and "
-    "limits the equality is not claimed."
+    "values of the declared element type (the C02.R7 model). (R8) the declaration readers of the grammar package "
+    "keep no cache, so creation works on the language of the grammar as declared at extraction (shared no-memo "
+    "rule). Choosers written as template methods are analysed once per receiving class, with that class's hooks "
+    "inlined. Where the affine engine cannot follow the full decider's filter (R3), the offset is read from the "
+    "finite-model interpretation of the chooser on scripted distances. Grammars with lists are outside the model "
+    "(known finding R1); beyond the listed grammars and limits the equality is not claimed."
 )
 
 
@@ -166,4 +168,10 @@ def run(ctx: Ctx) -> None:
     ctx.rule("C04.R5", "the tables creation chooses from are exact on the model grammars (both modes): the productions of every symbol (a vanished production "
                        "makes every program containing it unreachable) and the recursive set the full / position-independent deciders consult")
     ctx.floor("C04.R5", analysis_rule(ctx, "C04.R5", ("productions", "recursive")), 32, "model grammar x mode x table")
+    # the bounded language is that of the grammar as declared *now*: field types and refinements are read from the class declarations on every
+    # extraction (re-declaring a refinement and extracting again is documented), so the readers must not memoise (shared rule, = C02.R5)
+    from .c08 import process_state_rule
+    ctx.rule("C04.R8", "declaration readers (grammar package) keep no cache: creation works on the language of the grammar as declared at extraction")
+    n8 = process_state_rule(ctx, "C04.R8", ("geneticengine.grammar",))
+    ctx.ob("C04.R8", None, None, "grammar package scanned for memoisation / module-level state", True, f"{n8} candidate sites", module="geneticengine/grammar")
     ctx.assumptions += ["exhaustive enumeration of decision sequences is not performed (not this family)"]
